@@ -401,10 +401,41 @@ package rdb
 //@ ensures opens == old(opens) + 1 && openedPath == path
 //@ ensures err == nil ==> result0 != nil && fresh(result0)
 //@ ensures err != nil ==> result0 == nil
-//@ func RDB.CatchWithPrimary
+//@ func DBI.CatchWithPrimary
 //@ trusted
 //@ updates catchups
 //@ ensures catchups == old(catchups) + 1
+
+// A pooled iterator pins the database state it was created on. Catching up with the primary therefore first takes
+// EVERY pooled iterator back (a blocking receive for each of the NumberOfIterators entries -- lookups in flight are
+// waited for) and frees it, and only afterwards refills the pool with iterators created on the new state.
+// chanrecvs / chansends count the channel receives / sends completed.
+//@ ghostvar chanrecvs int
+//@ ghostvar chansends int
+//@ func IteratorPool.disable
+//@ flag skip frame
+//@ flag chanops abstract
+//@ updates chanrecvs
+//@ requires pool != nil
+//@ ensures[off] !pool.enabled && held(pool.l) == 0
+//@ ensures[all-back] old(pool.enabled) ==> chanrecvs == old(chanrecvs) + 15
+//@ ensures[noop] !old(pool.enabled) ==> chanrecvs == old(chanrecvs)
+//@ loop 0 invariant 0 <= i && i <= 15 && chanrecvs == old(chanrecvs) + i && !pool.enabled && held(pool.l) == 2
+//@ func IteratorPool.enable
+//@ flag skip frame
+//@ flag chanops abstract
+//@ updates chansends
+//@ requires pool != nil
+//@ ensures[on] pool.enabled && held(pool.l) == 0
+//@ ensures[refilled] !old(pool.enabled) ==> chansends == old(chansends) + 15
+//@ loop 0 invariant 0 <= i && i <= 15 && chansends == old(chansends) + i && !pool.enabled && held(pool.l) == 2
+//@ func RDB.CatchWithPrimary
+//@ updates chanrecvs, chansends, catchups
+//@ flag skip frame
+//@ requires rdb != nil && rdb.iteratorPool != nil && rdb.db != nil
+//@ before DBI.CatchWithPrimary#0 assert[pool-drained] !rdb.iteratorPool.enabled && (old(rdb.iteratorPool.enabled) ==> chanrecvs == old(chanrecvs) + 15)
+//@ ensures[caught-up] err == nil ==> catchups == old(catchups) + 1 && rdb.iteratorPool.enabled
+//@ ensures[once] catchups == old(catchups) || catchups == old(catchups) + 1
 
 // ---- C14: the iterator pool ----------------------------------------------------------------------------------------
 // disable() and enable() drain / refill the pool's channel while holding pool.l. The two operations that lookups
